@@ -416,6 +416,7 @@ pub fn property() -> Property {
                 name: "random-interleavings",
                 rule: "see property rule",
                 cases: (600_000, 3_000_000),
+                fuzz_decode: None,
                 strategy: gen_strategy,
                 check: check_scenario,
                 required_classes: &["interleaved", "stray-aliases-open-slot", "first-fragment-preempts-open-train"],
